@@ -13,6 +13,9 @@
     c12.jcut  <valid> <n> (<path> <limit> <found> <index> <strlen> <rawlen>)… <hex>   | <hex result>
     c12.json  <tree>                                  | ok <tree> | err
     c12.pb    <hex>                                   | ok | err            (library: echoed, only "no panic" is judged)
+    c12.row   <one of the scanner cases above> E <expected field tokens>
+                                                      | the inner case's result; P additionally requires
+                                                        `ok <expected field tokens> B …` (fidelity on the implementation)
   every scanner prints `err B <buf> J err` when the decoder returned its error and `panic:<kind>` on a panic.
   `J` is the event DecodeToJson builds (object, fields stably sorted by key).
 -/
@@ -129,7 +132,7 @@ def csvJ (cont : Bool) (pre : Bytes) (cols : List Bytes) (row : List Bytes) : St
     | f :: fs => ((match cols[i]? with | some c => c | none => pre ++ itoa i), JTree.str f) :: names (i + 1) fs
   jview (names 0 row)
 
-def handle (cmd : String) (args impl : List String) : Option (String × String) :=
+def handleBase (cmd : String) (args impl : List String) : Option (String × String) :=
   match cmd, args with
   | "c12.cri", [h] => do
     let data ← bytes? h
@@ -222,5 +225,37 @@ def handle (cmd : String) (args impl : List String) : Option (String × String) 
     -- protobuf decoder: library code (protocompile / dynamicpb), compared for "no panic" only
     pure (unwords impl, if impl.any (·.startsWith "panic") then "fail" else "ok")
   | _, _ => none
+
+/-- split at the first `E` token -/
+def splitE : List String → List String × List String
+  | [] => ([], [])
+  | t :: ts => if t = "E" then ([], ts) else
+      let (a, b) := splitE ts
+      (t :: a, b)
+
+/-- the implementation's field tokens: between the leading `ok` and `B` -/
+def fieldToks : List String → List String
+  | [] => []
+  | t :: ts => if t = "B" then [] else t :: fieldToks ts
+
+/-- `c12.row <inner case> E <expected field tokens>`: the inner case is the rendering of a
+    well-formed row; besides the inner oracle, P fails unless the implementation decoded exactly
+    the row's fields (`decode (render row) = row`, the statement of the `<dec>_fields` theorems,
+    evaluated on the implementation's result). -/
+def handle (cmd : String) (args impl : List String) : Option (String × String) :=
+  if cmd = "c12.row" then
+    let (inner, expected) := splitE args
+    match inner with
+    | icmd :: iargs =>
+      match handleBase icmd iargs impl with
+      | some (m, p) =>
+        let p' := if p ≠ "ok" then p else
+          match impl with
+          | "ok" :: rest => if fieldToks rest = expected then "ok" else "fail"
+          | _ => "fail"
+        some (m, p')
+      | none => none
+    | [] => none
+  else handleBase cmd args impl
 
 end FileD.DrvC12
